@@ -607,6 +607,10 @@ Proof.
   apply bind_step in H as [(c2 & hs & E2 & I2 & H)|[N NO]]; [|done_err N NO|exact I1|pinv|apply safe_never_crashes; intros x x' rx Ex; exact (decode_headers_never_crashes d x x' rx Ex)].
   apply bind_step in H as [(c3 & u & E3 & I3 & H)|[N NO]]; [|done_err N NO|exact I2|pinv|apply safe_cfsm].
   unfold bind at 1 in H. unfold get at 1 in H.
+  unfold bind at 1 in H.
+  destruct (g_recv_headers_unpromised sid (c_hi_in c3) (client c3) (negb (dmem sid (c_streams c3)))).
+  { unfold lift_res at 1 in H. unfold perr at 1 in H. cbv beta iota in H. injection H as _ <-. split; [auto|discriminate]. }
+  unfold ret at 1 in H. cbv beta iota in H.
   unfold bind at 1 in H. destruct (get_or_create_stream sid (b2z (negb (client c3))) c3) as [c4 r4] eqn:E4.
   pose proof (get_or_create_ncr sid (b2z (negb (client c3))) c3) as N4. rewrite E4 in N4. cbn [snd] in N4.
   assert (I4 : mfs_inv c4).
